@@ -7,6 +7,7 @@ LEVEL = "proof"
 ASSUMPTIONS = [
     "auto_build_role_links is on whenever a management call changes the policy (windows with the flag off contain only reloads of the mirrored store); grouping rules of any size are inside the theorems and the alphabet (shorter than the role definition: refused before anything is stored, F27; longer: truncated to a link that is shared and goes with the last rule having it, F28)",
     "role managers are represented by their link store; Props/C03 proves the managers' answers are a function of it",
+    "pattern stream (key_match as domain / role-name matching function, one pattern, so transitive on the names in use) and filtered-reload stream are outside the Lean model: judged by the fresh-enforcer oracle on the implementation only",
     "oracle on the implementation: after every call every decision / has_link / get_roles / get_users over the universe is compared with a freshly constructed Enforcer loaded with the current policy",
 ]
 TRUSTED_EXTRA = []
@@ -173,12 +174,131 @@ def filtered_reload_stream(ctx, res):
                 break
 
 
+PAT_TEXT = {"dom-keymatch": "dom", "rbac-keymatch": "rbac"}
+PAT_DOMS = ["d1", "d2", "*"]
+
+
+def _pat_universe(kind):
+    if kind == "dom-keymatch":
+        P = [["admin", "d1", "data1", "read"], ["admin", "d2", "data2", "read"], ["user", "d2", "data1", "read"]]
+        G = [[u, r, d] for u in ("alice", "bob") for r in ("admin", "user") for d in PAT_DOMS]
+        R = [[s, d, o, "read"] for s in ("alice", "bob") for d in ("d1", "d2") for o in ("data1", "data2")]
+        L = [(u, r, d) for u in ("alice", "bob") for r in ("admin", "user") for d in ("d1", "d2")]
+    else:
+        P = [["admin", "data1", "read"], ["user", "data2", "read"]]
+        G = [[u, r] for u in ("/u/1", "/u/2", "/u/*") for r in ("admin", "user")]
+        R = [[s, o, "read"] for s in ("/u/1", "/u/2") for o in ("data1", "data2")]
+        L = [(u, r) for u in ("/u/1", "/u/2") for r in ("admin", "user")]
+    return P, G, R, L
+
+
+def _pattern_case(args):
+    """Enforcer with a matching function on g (key_match on the domain, or on the user name; the pattern `*` / `/u/*` is
+    the only pattern, so the function is transitive on the names in use - outside F22): role assignments given under a
+    pattern are added and removed between queries for concrete names (which fill the per-domain caches); after every step
+    all queries are compared with a freshly constructed enforcer (same function) holding the current policy"""
+    kind, init, script = args
+    casbin = common.use_repo()
+    from casbin.util import key_match_func
+
+    P, G, R, L = _pat_universe(kind)
+
+    def make(pol):
+        e = casbin.Enforcer(casbin.Enforcer.new_model(text=ec.TEXT[PAT_TEXT[kind]]), ec.make_adapter(casbin, pol))
+        if kind == "dom-keymatch":
+            e.add_named_domain_matching_func("g", key_match_func)
+        else:
+            e.add_named_matching_func("g", key_match_func)
+        e.build_role_links()
+        return e
+
+    def ask(x):
+        out = [x.enforce(*r) for r in R]
+        rm = x.get_role_manager()
+        out += [rm.has_link(*l) for l in L]
+        out += [sorted(rm.get_roles(l[0], *l[2:])) for l in L[::2]]
+        return out
+
+    e = make({"p": P, "g": [G[i] for i in init], "g2": []})
+    out = [("init", ask(e), ask(make({"p": P, "g": [G[i] for i in init], "g2": []})))]
+    for op in script:
+        try:
+            if op[0] == "add":
+                ret = e.add_grouping_policy(*G[op[1]])
+            elif op[0] == "remove":
+                ret = e.remove_grouping_policy(*G[op[1]])
+            elif op[0] == "addmany":
+                ret = e.add_grouping_policies([G[i] for i in op[1]])
+            elif op[0] == "removemany":
+                ret = e.remove_grouping_policies([G[i] for i in op[1]])
+            elif op[0] == "removef":
+                ret = e.remove_filtered_grouping_policy(op[1], op[2])
+            elif op[0] == "load":
+                ret = e.load_policy()
+            elif op[0] == "deluser":
+                ret = e.delete_user(op[1])
+            else:
+                raise common.Infra("unknown op " + repr(op))
+            ret = repr(ret)
+        except common.Infra:
+            raise
+        except Exception as ex:  # noqa
+            ret = "!" + type(ex).__name__
+        pol = {"p": [list(r) for r in e.get_policy()], "g": [list(r) for r in e.get_grouping_policy()], "g2": []}
+        out.append((ret, ask(e), ask(make(pol))))
+    return out
+
+
+def _pattern_jobs(ctx, deep):
+    rng = ctx["rng"]
+    jobs = []
+    for kind in ("dom-keymatch", "rbac-keymatch"):
+        P, G, R, L = _pat_universe(kind)
+        n = len(G)
+        patt = [i for i, g in enumerate(G) if "*" in g[-1] or "*" in g[0]]
+        ops = [("add", i) for i in range(n)] + [("remove", i) for i in range(n)] + [("load",)]
+        ops += [("removef", 2, "*"), ("removef", 1, "admin")] if kind == "dom-keymatch" else [("removef", 0, "/u/*"), ("removef", 1, "admin")]
+        ops += [("deluser", G[patt[0]][0])]
+        # every pattern assignment alone and beside its concrete twin: revoke it, grant it again
+        for i in patt:
+            for init in ([i], [i, (i + 1) % n], list(range(n))):
+                jobs.append((kind, init, [("remove", i), ("add", i)]))
+                jobs.append((kind, init, [("removemany", [i]), ("addmany", [i])]))
+        for a in ops:
+            for b in ops:
+                if deep or rng.random() < 0.3:
+                    jobs.append((kind, sorted(rng.sample(range(n), rng.randint(0, 4)) + patt[:1]), [a, b]))
+        for _ in range(600 if deep else 120):
+            jobs.append((kind, sorted(rng.sample(range(n), rng.randint(0, 5))), [rng.choice(ops) for _ in range(rng.randint(3, 7))]))
+    return jobs
+
+
+def pattern_stream(ctx, res, deep):
+    import multiprocessing as mp
+
+    jobs = _pattern_jobs(ctx, deep)
+    with mp.Pool(12) as pool:
+        outs = pool.map(_pattern_case, jobs, chunksize=8)
+    for (kind, init, script), out in zip(jobs, outs):
+        res.nontrivial.add(hash(("pattern", kind, repr(init), repr(script))))
+        for i, (ret, got, fresh) in enumerate(out):
+            res.evaluations += 1
+            res.count("pattern:" + kind + ":" + (script[i - 1][0] if i else "init"))
+            if got != fresh:
+                k = [j for j in range(len(got)) if got[j] != fresh[j]][0]
+                res.violation({"signature": f"C04:{kind}:pattern:{script[i - 1][0] if i else 'init'}", "stream": "pattern", "kind": kind, "init": init, "script": [list(o) for o in script[:i]],
+                               "what": f"{kind}: initial grouping rules {init} (indices into the universe), after {[list(o) for o in script[:i]]} (last result {ret}) query #{k} answers {got[k]}, a freshly constructed enforcer (same matching function) holding the same policy answers {fresh[k]}",
+                               "expected": fresh[k], "observed": got[k]})
+                break
+
+
 def run(ctx):
     res = common.Result()
     stages = [False] if not ctx["deep"] else ([True] if ctx["proof_ok"] else [False, True])
     for deep in stages:
         ec.run_configs(res, gen(ctx, deep), judge)
         filtered_reload_stream(ctx, res)
+        pattern_stream(ctx, res, deep)
         if res.spec_violations:
             break
     res.rule = (
@@ -186,13 +306,16 @@ def run(ctx):
         "(single/batch/filtered adds and removes of role assignments and permissions incl. duplicate, rejected, partly-present batches, "
         "delete_user/delete_role/delete_roles_for_user, update, clear_policy, build_role_links, load_policy, save_policy) plus seeded random "
         "histories of length 3-9; after every call ~40 queries (all decisions, has_link pairs, get_roles, get_users) are compared with a "
-        "freshly constructed enforcer and with the Lean model; non-trivial/distinct = (configuration, history)"
+        "freshly constructed enforcer and with the Lean model; filtered-reload stream and pattern stream (matching function on domains / names, pattern assignments revoked between queries) with the fresh-enforcer oracle; non-trivial/distinct = (configuration, history)"
     )
     res.exhaustive = True
     return res
 
 
 def replay(obj):
+    if obj.get("stream") == "pattern":
+        ret, got, fresh = _pattern_case((obj["kind"], obj["init"], [tuple(o) for o in obj["script"]]))[-1]
+        return got != fresh
     if obj.get("stream") == "filtered-reload":
         script = [tuple(o) for o in obj["script"]]
         ret, got, fresh = _filtered_reload_case((obj["shape"], script))[-1]
